@@ -30,9 +30,9 @@ def run(ctx):
     ctx.preload(cfgs)
     for cfg in cfgs:
         fs = ctx.facts(cfg)
-        console(ctx, cfg, fs)
-        width_source(ctx, cfg, fs)
-        splitter(ctx, cfg, fs)
+        ctx.guard(console, ctx, cfg, fs)
+        ctx.guard(width_source, ctx, cfg, fs)
+        ctx.guard(splitter, ctx, cfg, fs)
 
 def res_local(b):
     for c in b.calls():
